@@ -1,13 +1,42 @@
 #!/bin/bash
-# ./seedregress.sh [id ...] : for every archived seeded change (default: all) apply it to /repo, run the quick
-# tier of the checks its meta.json lists under "breaks" and report whether each still raises an alarm.
-# Always reverts /repo. Evidence of these runs goes to engine/target/seed-evidence (never to evidence/).
+# ./seedregress.sh [N]  — regression over all archived seeded changes WITHOUT touching /repo:
+# N (default 4) private copies of the repository (git worktrees of /repo's HEAD under /tmp/rr<i>) and of the
+# engine (path dependencies rewritten to the copy) work through the seeds in parallel. For every seed the
+# quick tier of the checks listed under "breaks" in its meta.json is run against the patched copy
+# (VERIF_REPO / VERIF_SCC point the engine at the copy; evidence goes to the copy's own directory).
+# Output: one line per seed "id: Cxx:exit=1 ..." (exit=1 = still detected). The copies are removed at the end.
+N="${1:-4}"
 cd /verif/seeded || exit 2
-ids="${*:-$(ls -d C*-* | sort)}"
-for id in $ids; do
-  [ -f "$id/patch.diff" ] || continue
-  checks=$(python3 -c "import json;print(' '.join(json.load(open('$id/meta.json'))['breaks']))")
-  if ! git -C /repo apply --check "/verif/seeded/$id/patch.diff" 2>/dev/null; then echo "$id: PATCH DOES NOT APPLY"; continue; fi
-  res=$(SKIP_REPO_TESTS=1 /verif/seedcheck.sh "/verif/seeded/$id/patch.diff" $checks 2>&1 | awk '{print $1":"$2}' | tr '\n' ' ')
-  echo "$id: $res"
-done
+ids=( $(ls -d C[0-9][0-9]-* | sort) )
+worker() {
+  i="$1"; R="/tmp/rr$i"
+  rm -rf "$R"; git -C /repo worktree prune
+  mkdir -p "$R/engine" "$R/ev"
+  git -C /repo worktree add --detach "$R/repo" HEAD >/dev/null 2>&1 || { echo "worker $i: cannot create worktree"; return; }
+  cp -r /verif/engine/src /verif/engine/Cargo.toml /verif/engine/Cargo.lock "$R/engine/"
+  sed -i "s#/repo/lang#$R/repo/lang#g" "$R/engine/Cargo.toml"
+  (cd "$R/engine" && CARGO_NET_OFFLINE=true cargo build --release --offline >"$R/build0.log" 2>&1) || { echo "worker $i: initial build failed"; return; }
+  for k in "${!ids[@]}"; do
+    [ $((k % N)) -eq "$i" ] || continue
+    id="${ids[$k]}"
+    [ -f "/verif/seeded/$id/patch.diff" ] || continue
+    checks=$(python3 -c "import json;print(' '.join(json.load(open('/verif/seeded/$id/meta.json'))['breaks']))")
+    if ! git -C "$R/repo" apply "/verif/seeded/$id/patch.diff" 2>/dev/null; then echo "$id: PATCH DOES NOT APPLY"; continue; fi
+    if ! (cd "$R/engine" && CARGO_NET_OFFLINE=true cargo build --release --offline >"$R/build.log" 2>&1); then echo "$id: BUILD FAILED"; git -C "$R/repo" checkout -- .; continue; fi
+    case " $checks " in *" C16 "*|*" C17 "*|*" C18 "*)
+      (cd "$R/repo" && CARGO_NET_OFFLINE=true cargo build --release --offline -p scc --target-dir "$R/scc" >"$R/build-scc.log" 2>&1) ;;
+    esac
+    line="$id:"
+    for c in $checks; do
+      (cd /verif && VERIF_REPO="$R/repo" VERIF_SCC="$R/scc/release/scc" VERIF_EVIDENCE_DIR="$R/ev" VERIF_BUDGET_S=1500 VERIF_JOBS=4 "$R/engine/target/release/vcheck" "$c" quick >"$R/out.log" 2>&1); code=$?
+      line="$line $c:exit=$code"
+    done
+    echo "$line"
+    git -C "$R/repo" checkout -- . >/dev/null 2>&1
+  done
+  git -C /repo worktree remove --force "$R/repo" >/dev/null 2>&1
+  rm -rf "$R"
+}
+for i in $(seq 0 $((N-1))); do worker "$i" & done
+wait
+git -C /repo worktree prune
